@@ -1,8 +1,28 @@
 // Kani harnesses for src/internal/timestamp.rs (child module `vk`)
 use super::*;
 
+pub fn stub_format(_args: core::fmt::Arguments<'_>) -> String {
+    String::new()
+}
+
+/// harness helper: take the Ok value of an io::Result without pulling the
+/// Debug/Drop machinery of io::Error into the model (unwrap() would)
+pub fn must<T>(r: std::io::Result<T>) -> T {
+    match r {
+        Ok(x) => x,
+        Err(e) => {
+            core::mem::forget(e);
+            assert!(false, "expected Ok");
+            kani::assume(false);
+            unreachable!()
+        }
+    }
+}
+
 // @harness name=timestamp_codec kind=Pc tier=quick props=C18,C10,C01 desc="Timestamp::write_to emits the 8 little-endian bytes of the tick count and read_from inverts it, for every u64; short input is an error"
 #[kani::proof]
+#[kani::stub(alloc::fmt::format, stub_format)]
+#[kani::unwind(3)]
 fn timestamp_codec() {
     let t: u64 = kani::any();
     let mut buf = [0u8; 8];
@@ -13,7 +33,7 @@ fn timestamp_codec() {
     }
     assert!(u64::from_le_bytes(buf) == t);
     let mut r: &[u8] = &buf;
-    assert!(Timestamp::read_from(&mut r).unwrap() == Timestamp(t));
+    assert!(must(Timestamp::read_from(&mut r)) == Timestamp(t));
     let n: usize = kani::any();
     kani::assume(n < 8);
     let mut short: &[u8] = &buf[..n];
